@@ -21,12 +21,45 @@ Core Lean only.
 -/
 namespace IstioModel.C12
 
+/-- `outboundTrafficPolicy` (Sidecar resource or mesh-wide). -/
+inductive OutboundPolicy where
+  | allowAny
+  | registryOnly
+  | egressProxy (cluster : String)
+  | dynamicDNS                       -- ALLOW_ANY_DYNAMIC_DNS: unknown hosts go to the dynamic-forward-proxy cluster
+  deriving DecidableEq, Repr
+
 structure MeshSvc where
   host : String
   ns : String := ""
-  ports : List Nat := []
-  addr : String := ""
+  ports : List Nat := []         -- every port of the service ...
+  tcpPorts : List Nat := []      -- ... those of them whose protocol is not HTTP (never routed by an HTTP route configuration)
+  addr : String := ""            -- the address for THIS proxy (`DefaultAddress`, or the first VIP of the proxy's cluster)
+  moreAddrs : List String := []  -- further VIPs of the proxy's cluster
+  clusterVIPs : List (String × List String) := []   -- `ClusterVIPs`: cluster id -> VIPs (before `forCluster`)
   aliases : List String := []    -- `Attributes.Aliases`: ExternalName services that point to this one
+  alias : Bool := false          -- `Resolution: Alias`: the service is itself an ExternalName alias
+  headless : Bool := false       -- a Kubernetes headless service (`Resolution: Passthrough`): also `<pod>.<name>`
+  deriving Repr
+
+def MeshSvc.httpOn (s : MeshSvc) (port : Nat) : Bool := s.ports.contains port && !s.tcpPorts.contains port
+
+/-- `GetAllAddressesForProxy` for an IPv4-only proxy of cluster `cl`: the IPv4 VIPs of its cluster if there are any;
+    else the default address - which, for a service that has cluster VIPs at all, is a remote cluster's VIP and is
+    used only if it is IPv4. -/
+def forCluster (cl : String) (s : MeshSvc) : MeshSvc :=
+  let v4 (a : String) : Bool := !containsStr ":" a
+  let own := ((s.clusterVIPs.filter (fun e => e.1 == cl && cl != "")).flatMap (·.2)).filter v4
+  match own with
+  | a :: rest => { s with addr := a, moreAddrs := rest }
+  | [] => if s.clusterVIPs.isEmpty || v4 s.addr then s else { s with addr := "" }
+
+/-- What the model keeps of a VirtualService besides `VirtualService` itself (keyed by name and namespace). -/
+structure VSExtra where
+  name : String
+  ns : String
+  exportTo : List String := []     -- empty = everywhere
+  gateways : List String := []     -- empty = the mesh gateway only
   deriving Repr
 
 /-- One `Sidecar.egress[].hosts` entry `namespace/dnsName` (`*` any namespace, `.` the Sidecar's own). -/
@@ -43,6 +76,11 @@ structure Mesh where
   egress : List EgressHost := []       -- hosts of its catch-all egress listener
   egressPort : Nat := 0                -- a port-specific egress listener (0 = none) ...
   egressPortHosts : List EgressHost := []   -- ... and its hosts
+  sidecarSelector : List (String × String) := []   -- its workloadSelector
+  sidecarPolicy : Option OutboundPolicy := none    -- its outboundTrafficPolicy (`none` = unset)
+  meshPolicy : OutboundPolicy := .allowAny         -- MeshConfig.outboundTrafficPolicy
+  policy : OutboundPolicy := .allowAny             -- the policy in force for the proxy (set by `proxyView`)
+  vsx : List VSExtra := []
   proxyDomain : String := ""
   built : Bool := false                -- a route configuration was built for the current mesh (driver only)
   deriving Repr
@@ -78,14 +116,60 @@ def aliasesKept (es : List EgressHost) (own : String) (s : MeshSvc) : List Strin
     l.any fun e => e.host == h || ((isWildcarded e.host || isWildcarded h) && hostSubsetOf h e.host)
   if hit nsE s.host then s.aliases.filter (hit nsE) else s.aliases.filter (hit wE)
 
+/-- Root namespace of the mesh: a Sidecar resource there, without workloadSelector, is the default of every namespace
+    that has none of its own. -/
+def rootNamespace : String := "istio-system"
+
+/-- Does the (single) Sidecar resource apply to a proxy of namespace `pns` with these workload labels?  In its own
+    namespace: iff its workloadSelector is a subset of the labels; elsewhere: iff it is the root-namespace default. -/
+def sidecarApplies (m : Mesh) (pns : String) (labels : List (String × String)) : Bool :=
+  m.sidecarNs != "" &&
+  (if m.sidecarNs == pns then m.sidecarSelector.all (fun kv => labels.contains kv)
+   else m.sidecarNs == rootNamespace && m.sidecarSelector.isEmpty)
+
+/-- API text of `VirtualService.exportTo` / `gateways`: a sidecar of namespace `pns` sees a VirtualService iff it is
+    exported to `pns` (`*`, the namespace itself, `.` = the VirtualService's own namespace; unset = `*`) and bound to
+    the mesh gateway (`gateways` unset or containing `mesh`). -/
+def vsForSidecar (m : Mesh) (pns : String) (v : VirtualService) : Bool :=
+  match m.vsx.find? (fun x => x.name == v.name && x.ns == v.ns) with
+  | none => true
+  | some x =>
+    (x.exportTo.isEmpty || x.exportTo.contains "*" || x.exportTo.contains pns || (x.exportTo.contains "." && v.ns == pns))
+    && (x.gateways.isEmpty || x.gateways.contains "mesh")
+
 /-- The mesh as a proxy of namespace `pns` sees it on listener port `port`: the egress listener declared for
     that port if there is one (`GetEgressListenerForRDS`), else the catch-all listener. -/
-def scopeMesh (m : Mesh) (pns : String) (port : Nat) : Mesh :=
-  if m.sidecarNs == "" || m.sidecarNs != pns then m
+def scopeMesh (m : Mesh) (pns : String) (labels : List (String × String)) (port : Nat) : Mesh :=
+  if !sidecarApplies m pns labels then m
   else
     let es := if m.egressPort != 0 && m.egressPort == port then m.egressPortHosts else m.egress
     { m with svcs := (m.svcs.filter (svcImported es pns)).map (fun s => { s with aliases := aliasesKept es pns s }),
              vss := m.vss.filter (vsImported es pns) }
+
+/-- CODE-DERIVED precedence among the VirtualServices a sidecar sees (`VirtualServicesForGateway`): first those exported
+    to their own namespace only (the proxy's), then those exported to the proxy's namespace by name, then the public
+    ones; creation order inside each class.  Where several VirtualServices compete for a host, "the oldest" therefore
+    means the oldest of the most narrowly exported class. -/
+def exportClass (m : Mesh) (pns : String) (v : VirtualService) : Nat :=
+  match m.vsx.find? (fun x => x.name == v.name && x.ns == v.ns) with
+  | none => 2
+  | some x =>
+    if x.exportTo.isEmpty || x.exportTo.contains "*" then 2
+    else if v.ns == pns && (x.exportTo.contains "." || x.exportTo.contains v.ns) then 0
+    else 1
+
+def byExportClass (m : Mesh) (pns : String) (vss : List VirtualService) : List VirtualService :=
+  vss.filter (fun v => exportClass m pns v == 0) ++ vss.filter (fun v => exportClass m pns v == 1)
+    ++ vss.filter (fun v => exportClass m pns v == 2)
+
+/-- Everything proxy-specific at once: VirtualServices exported to / bound for the proxy, the Sidecar scope, the
+    service addresses of the proxy's cluster, the outbound traffic policy in force (the Sidecar's if it applies and
+    sets one, else the mesh-wide one). -/
+def proxyView (m : Mesh) (pns : String) (labels : List (String × String)) (port : Nat) (cluster : String) : Mesh :=
+  let m1 := { m with vss := byExportClass m pns (m.vss.filter (vsForSidecar m pns)) }
+  let m2 := scopeMesh m1 pns labels port
+  { m2 with svcs := m2.svcs.map (forCluster cluster),
+            policy := if sidecarApplies m pns labels then m.sidecarPolicy.getD m.meshPolicy else m.meshPolicy }
 
 /-- API text of `VirtualService.hosts` / `Destination.host`: "short names ... Istio will interpret the short name
     based on the namespace of the rule": a name without dots (other than `*` or an IP address) means
@@ -112,7 +196,7 @@ def hostNames (h : String) (proxyDomain : String) : List String :=
 
 def svcNames (s : MeshSvc) (proxyDomain : String) : List String :=
   (s.host :: s.aliases).flatMap (fun h => hostNames h proxyDomain)
-    ++ (if s.addr != "" && s.addr != "0.0.0.0" then [ipv6Compliant s.addr] else [])
+    ++ ((s.addr :: s.moreAddrs).filter (fun a => a != "" && a != "0.0.0.0")).map ipv6Compliant
 
 /-- The longest string of a list (any of them among equals: matching wildcard hosts of equal length
     are equal). -/
